@@ -113,8 +113,8 @@ def map_case(seed, threads=None, thick=False, force=None):
     use_dx = True if thick else f.get("use_dx", rng.random() < 0.85)
     if use_dx:
         kw["dx"] = win * ratio * units(win_unit)
-        if rng.random() < 0.25:
-            kw["dy"] = float(rng.choice([0.5, 2.0])) * win * ratio * units(win_unit)
+        if "dy_over_dx" in f or rng.random() < 0.25:
+            kw["dy"] = float(f.get("dy_over_dx", rng.choice([0.25, 0.5, 2.0, 4.0, 7.0]))) * win * ratio * units(win_unit)
     else:
         win_unit = pos_unit
         ratio = 1.0
@@ -322,9 +322,49 @@ def _first_failure(cases, label):
     return None
 
 
+def vector_unit_case(unit):
+    """vector layer in the given unit on a fixed small mesh: projections must be the cell's components"""
+    import numpy as np
+    import osyris
+    from osyris import Array, Vector, units
+    from osyris.core import Layer
+
+    rng = np.random.default_rng(3)
+    C, S = amr_mesh(rng, 3, 1, n0=2)
+    pos = Vector(*[Array(C[:, d].copy(), unit="cm") for d in range(3)])
+    dx = Array(S.copy(), unit="cm")
+    vals = rng.uniform(1, 2, (len(S), 3))
+    vec = Vector(*[Array(vals[:, d].copy(), unit=unit) for d in range(3)], name="v")
+    o = np.array([0.47, 0.53, 0.41])
+    p = osyris.map(Layer(vec, aux={"position": pos, "dx": dx}, mode="vec"), direction="y", dx=0.9 * units("cm"),
+                   origin=Vector(*[Array(float(x), unit="cm") for x in o]), resolution=2, plot=False)
+    u, v, n = documented_basis("y")
+    for j, y in enumerate(p.y):
+        for i, x in enumerate(p.x):
+            q = o + x * u + y * v
+            strict, near = locate(C, S, q, 1e-9)
+            if len(strict) != 1:
+                continue
+            w = vals[strict[0]]
+            exp = np.array([w @ u, w @ v, math.hypot(w @ u, w @ v)])
+            got = np.ma.getdata(p.layers[0]["data"])[j, i]
+            if not np.allclose(got, exp, rtol=1e-9) or str(p.layers[0]["unit"]) != str(units(unit).units if hasattr(units(unit), "units") else units(unit)):
+                return {"what": "vector layer in '%s': pixel (j=%d,i=%d) shows %s %s, the containing cell's projection is %s %s"
+                                % (unit, j, i, got.tolist(), p.layers[0]["unit"], exp.tolist(), unit), "input": {"vector_unit": unit, "direction": "y"}}
+    return None
+
+
 def sweep_c03(tier, seed):
     n = 140 if tier == "quick" else 2500
     viol, cases = [], 0
+    for un, name in (("cm/s", "C03.native.map.vector_unit"), ("cm/m", "C03.native.map.vector_scaled_dimensionless_unit")):
+        cases += 1
+        try:
+            r = vector_unit_case(un)
+        except Exception as e:
+            r = {"what": "exception %r" % (e,), "input": {"vector_unit": un}}
+        if r:
+            viol.append({"name": name, "input": r["input"], "observed": r["what"]})
     for s in range(n):
         cases += 1
         th = (1, 4, 16)[s % 3]
@@ -346,6 +386,17 @@ def sweep_c03(tier, seed):
             r = {"what": "exception %r" % (e,), "input": {"seed": seed * 7919 + s}}
         if r:
             viol.append({"name": "C03.native.map.small_window", "input": r["input"], "observed": r["what"]})
+            break
+    # tall / wide windows (dy != dx): the window pre-selection must use the larger extent
+    for s in range(n // 4):
+        cases += 1
+        try:
+            r = map_case(seed * 31337 + s, force={"use_dx": True, "dy_over_dx": [6.0, 0.15, 3.0, 9.0][s % 4], "frac": [0.1, 1.0, 0.3, 0.06][s % 4],
+                                                  "levels": 1 + s % 3})
+        except Exception as e:
+            r = {"what": "exception %r" % (e,), "input": {"seed": seed * 31337 + s}}
+        if r:
+            viol.append({"name": "C03.native.map.tall_window", "input": r["input"], "observed": r["what"]})
             break
     return {"status": "violation" if viol else "ok", "cases": cases, "distinct": cases, "violations": viol,
             "samples": [{"seed": seed * 1000003}], "kind": "bounded-native"}
@@ -395,8 +446,91 @@ def _replay(gen, count):
     return {"reproduced": False, "note": "no failing input among %d synthesized cases" % count}
 
 
+def candidate_case(w):
+    """replay a candidate counterexample (one cell, origin, window, resolution from a lemma-level model) on the real code"""
+    import numpy as np
+    import osyris
+    from osyris import Array, Vector, units
+    from osyris.core import Layer
+
+    ndim = int(w["ndim"])
+    C = np.array([[float(w["centre%d" % d]) for d in range(ndim)]])
+    S = np.array([float(w["size"])])
+    if not (S[0] > 0):
+        return None
+    o = np.array([float(w["origin%d" % d]) for d in range(ndim)])
+    pos = Vector(*[Array(C[:, d].copy(), unit="cm") for d in range(ndim)])
+    val = np.array([7.0])
+    lay = Layer(Array(val.copy(), unit="g", name="rho"), aux={"position": pos, "dx": Array(S.copy(), unit="cm")})
+    # the candidate comes from the real-arithmetic part only: the resolution is ours (a dropped cell masks all its pixels)
+    rx, ry = 23, 24
+    kw = {"dx": float(w["window_x"]) * units("cm")}
+    if abs(float(w["window_y"]) - float(w["window_x"])) > 0:
+        kw["dy"] = float(w["window_y"]) * units("cm")
+    thick = bool(w.get("thick"))
+    op = None
+    if thick:
+        kw["dz"] = float(w["dz"]) * units("cm")
+        nz = 9
+        op = "max"
+        kw["operation"] = op
+    direction = w["direction"] if ndim == 3 else "z"
+    res = {"x": rx, "y": ry}
+    if thick:
+        res["z"] = nz
+    desc = {"from": "lemma-level candidate", "cell_centre": C[0].tolist(), "cell_size": float(S[0]), "origin": o.tolist(), "window": [float(w["window_x"]),
+            float(w["window_y"])], "dz": float(w["dz"]) if thick else None, "resolution": res, "direction": direction}
+    try:
+        p = osyris.map(lay, direction=direction, origin=Vector(*[Array(float(x), unit="cm") for x in o]), resolution=dict(res), plot=False, **kw)
+    except RuntimeError as e:
+        if "No cells were selected" not in str(e):
+            raise
+        p = None
+    if ndim == 3:
+        u, v, n = documented_basis(direction)
+    else:
+        u, v, n = np.array([1.0, 0, 0]), np.array([0, 1.0, 0]), np.zeros(3)
+    o3 = np.zeros(3)
+    o3[:ndim] = o
+    tol = 1e-9 * max(S[0], 1e-300)
+    xs = -0.5 * float(w["window_x"]) + (np.arange(rx) + 0.5) * float(w["window_x"]) / rx
+    ys = -0.5 * float(w["window_y"]) + (np.arange(ry) + 0.5) * float(w["window_y"]) / ry
+    zs = [0.0] if not thick else (-0.5 * float(w["dz"]) + (np.arange(nz) + 0.5) * float(w["dz"]) / nz)
+    for jj, y in enumerate(ys):
+        for ii, x in enumerate(xs):
+            inside = False
+            for z in zs:
+                q = (o3 + x * u + y * v + z * n)[:ndim]
+                strict, near = locate(C, S, q, tol)
+                if len(strict):
+                    inside = True
+            if not inside:
+                continue
+            if p is None:
+                return {"what": "RuntimeError 'No cells were selected' although the cell contains the sample point of pixel (j=%d,i=%d)" % (jj, ii),
+                        "input": desc}
+            if bool(np.ma.getmaskarray(p.layers[0]["data"])[jj, ii]) and (not thick):
+                return {"what": "pixel (j=%d,i=%d) is masked although its sample point lies inside the cell" % (jj, ii), "input": desc}
+            if thick and bool(np.ma.getmaskarray(p.layers[0]["data"])[jj, ii]):
+                # nanmax... 'max' is NaN if any sample is missing: only a fully covered column is conclusive
+                full = all(len(locate(C, S, (o3 + x * u + y * v + z * n)[:ndim], tol)[0]) for z in zs)
+                if full:
+                    return {"what": "pixel (j=%d,i=%d) is masked although every depth sample lies inside the cell" % (jj, ii), "input": desc}
+    return None
+
+
 def replay_c03(case, model, rec):
-    """search the neighbourhood the failed obligation points at: small windows first, then the general sweep"""
+    """a candidate counterexample from a lemma is replayed first; then search the neighbourhood the failed obligation
+    points at: small windows first, then the general sweep"""
+    cand = (model or {}).get("candidate_from_lemma") if isinstance(model, dict) else None
+    if cand:
+        try:
+            r = candidate_case(cand)
+        except Exception as e:
+            r = None
+        if r:
+            return {"reproduced": True, "input": r["input"], "observed": r["what"]}
+        return {"reproduced": False, "note": "the lemma-level candidate does not fail on the real code"}
     lab = (case or {}).get("label", "") if isinstance(case, dict) else ""
     force = {"use_dx": True}
     if "2d" in lab:
@@ -409,7 +543,64 @@ def replay_c03(case, model, rec):
     return _replay(lambda s: map_case(777 + s, threads=(1, 4, 16)[s % 3]), 120)
 
 
+def kernel_case(seed):
+    """the numba kernel alone against a direct transcription of its contract (last cell passing the test wins)"""
+    import numba
+    import numpy as np
+    from osyris.plot.utils import evaluate_on_grid
+
+    rng = np.random.default_rng(seed)
+    ndim = int(rng.choice([2, 3]))
+    nc = int(rng.integers(1, 12))
+    nz, ny, nx = (1 if ndim == 2 else int(rng.integers(1, 4))), int(rng.integers(1, 6)), int(rng.integers(1, 6))
+    lo = rng.uniform(-1, 0, 3)
+    sp = rng.uniform(0.1, 0.5, 3)
+    centres = rng.uniform(-1, 1.5, (nc, 3))
+    sizes = rng.uniform(0.05, 0.6, nc)
+    vals = rng.uniform(1, 2, (2, nc))
+    # axis-aligned basis: new == original coordinates, pixel centres on the kernel's own grid
+    gp = np.zeros((nz, ny, nx, 3))
+    for k in range(nz):
+        for j in range(ny):
+            for i in range(nx):
+                gp[k, j, i] = [lo[0] + (i + .5) * sp[0], lo[1] + (j + .5) * sp[1], lo[2] + (k + .5) * sp[2]]
+    if ndim == 2:
+        centres[:, 2] = gp[0, 0, 0, 2]
+    numba.set_num_threads(1)
+    out = evaluate_on_grid(centres[:, 0].copy(), centres[:, 1].copy(), centres[:, 2].copy(), centres[:, 0].copy(), centres[:, 1].copy(),
+                           centres[:, 2].copy() if ndim == 3 else None, vals, sizes, lo[0], lo[1], lo[2], sp[0], sp[1], sp[2], gp, ndim)
+    numba.set_num_threads(numba.config.NUMBA_NUM_THREADS)
+    for k in range(nz):
+        for j in range(ny):
+            for i in range(nx):
+                hit = -1
+                for n in range(nc):
+                    if all(abs(gp[k, j, i, d] - centres[n, d]) <= sizes[n] for d in range(ndim)):
+                        hit = n
+                want = np.full(2, np.nan) if hit < 0 else vals[:, hit]
+                if not np.array_equal(out[:, k, j, i], want, equal_nan=True):
+                    return {"what": "kernel pixel (k=%d,j=%d,i=%d) holds %s, contract says %s (last passing cell %d)"
+                                    % (k, j, i, out[:, k, j, i].tolist(), want.tolist(), hit), "input": {"seed": seed, "ndim": ndim, "ncells": nc}}
+    return None
+
+
+def replay_kernel(case, model, rec):
+    r = _replay(kernel_case, 300)
+    if r["reproduced"]:
+        return r
+    return replay_c03(case, model, rec)
+
+
 def replay_c11(case, model, rec):
+    cand = (model or {}).get("candidate_from_lemma") if isinstance(model, dict) else None
+    if cand:
+        try:
+            r = candidate_case(cand)
+        except Exception:
+            r = None
+        if r:
+            return {"reproduced": True, "input": r["input"], "observed": r["what"]}
+        return {"reproduced": False, "note": "the lemma-level candidate does not fail on the real code"}
     r = _replay(lambda s: map_case(9000 + s, thick=True, force={"ndim": 3, "dzfrac": [0.02, 0.05, 0.1, 0.3][s % 4], "levels": 1 + s % 2}), 60)
     if r["reproduced"]:
         return r
